@@ -10,7 +10,7 @@ git apply $D/patch.diff || { echo "patch does not apply"; exit 2; }
 echo "== mutated demo:"; (cd /repo && timeout 600 /venv/bin/python $D/demo.py >/tmp/demo_mut.log 2>&1; echo "exit=$?"; tail -3 /tmp/demo_mut.log)
 for P in "$@"; do
   echo "== check $P quick on mutated tree:"
-  (cd /verif && VERIF_REPLAY_DIR=/tmp/mutreplays ./check $P quick > /tmp/mut_$P.log 2>&1; echo "exit=$?"; grep -c "^VIOLATION" /tmp/mut_$P.log; grep -A1 "^VIOLATION" /tmp/mut_$P.log | grep site= | sed 's/case=.*//' | sort | uniq -c | head -8; tail -1 /tmp/mut_$P.log | cut -c1-200)
+  (cd /verif && VERIF_EVIDENCE_DIR=/tmp/mutevidence VERIF_REPLAY_DIR=/tmp/mutreplays ./check $P quick > /tmp/mut_$P.log 2>&1; echo "exit=$?"; grep -c "^VIOLATION" /tmp/mut_$P.log; grep -A1 "^VIOLATION" /tmp/mut_$P.log | grep site= | sed 's/case=.*//' | sort | uniq -c | head -8; tail -1 /tmp/mut_$P.log | cut -c1-200)
 done
 git -C /repo checkout -- . ; rm -f /repo/model.bif
 echo "== reverted: $(git -C /repo status --porcelain --untracked-files=no | wc -l) dirty files"
